@@ -100,8 +100,18 @@ Cfg ==
          size   |-> 3,
          tyM    |-> {"", "_", "@", "$", "!"},
          aux    |-> { [ty |-> t, e |-> Bin("seq", S(a), S(b))] : t \in {"", "@", "$", "!"} },
-         ws     |-> {"", "_", "@", "$", "!"},  cm |-> {"none", "_", "!"},
+         ws     |-> {"", "_", "@", "$", "!"},  cm |-> {"none", "_", "!", "$"},
          sigma  |-> {97, 98, 32, 35},  len |-> 3]
+    [] BaseSlice = "wsref" ->   \* WHITESPACE / COMMENT referred to BY NAME from rules of every modifier (besides being skipped
+                                \* implicitly): what they emit and how their failures are tracked depends on the mode of the caller
+        [leaves |-> {S(a), Id("WHITESPACE"), Id("COMMENT")},
+         unary  |-> {"opt", "rep", "not"},
+         binary |-> {"seq", "alt"},
+         size   |-> 3,
+         tyM    |-> {"", "@", "$", "!"},
+         aux    |-> { [ty |-> "", e |-> S(b)] },
+         ws     |-> {"", "_", "@", "$", "!"},  cm |-> {"", "$"},
+         sigma  |-> {97, 32, 35},  len |-> 3]
     [] BaseSlice = "stack" ->
         [leaves |-> {S(a), Id("POP"), Id("PEEK"), Id("DROP"), Id("PEEK_ALL"), Id("POP_ALL"),
                      Un("push", S(a)), Un("push", Id("ANY")),
@@ -227,7 +237,7 @@ CmRule(ty, wb) == [ty |-> ty, e |-> CASE wb = "rule" -> Bin("seq", S(hash), Un("
                                       [] wb = "ov" -> Bin("alt", S(<<32, 35>>), S(<<35, 35>>))
                                       [] wb = "seq" -> Bin("seq", Un("rep", S(a)), S(hash))
                                       [] OTHER -> S(hash)]
-WBodies == CASE BaseSlice = "ws" -> {"lit", "rule", "seq"} [] BaseSlice = "wsov" -> {"ov"} [] OTHER -> {"lit"}
+WBodies == CASE BaseSlice = "ws" -> {"lit", "rule", "seq"} [] BaseSlice = "wsov" -> {"ov"} [] BaseSlice = "wsref" -> {"lit", "rule"} [] OTHER -> {"lit"}
 
 Grammars ==
   { [m |-> [ty |-> tm, e |-> e], r1 |-> aux, ws |-> w, cm |-> c, wb |-> wb] :
